@@ -15,7 +15,7 @@ a call at program point c is enclosed iff one source was obtained no later than 
              that dominates c or is c, and some source is at a point that c dominates, that post-dominates c, or is c.
 A node whose location cannot be traced to such sources is reported as undecidable (fail closed)."""
 from ..core import RuleResult
-from ..cfg import cfg_of, single_def, def_sites
+from ..cfg import cfg_of, single_def, def_sites, succs
 from ..dataflow import root_local, operand_root
 from ..facts import callee, strip_refs
 
@@ -419,4 +419,105 @@ def run_result_loc(prog, tier, repo):
                                   f'that of an enclosing construct (e.g. `Box<int>` for the name `Box`), so hover, the definition lookup '
                                   f'key and rename edits do not cover exactly the characters of the name')
     res.floor('name-carrying search results', n, 6)
+    return [res]
+
+
+# ---------------------------------------------------------------------------------------------------------------------
+# CURSOR-LOC-FRESH (C14): the parser keeps `last_location`, the location of the last token handed out by its cursor. It is
+# the location of the last *consumed* token only right after `consume()`: every later `peek()` lexes ahead and overwrites it
+# with the location of each comment it skips. A node location built from `last_location` after something else has touched
+# the cursor therefore ends at a comment that follows the construct (`import {A} from M /* c */`), so a name's location no
+# longer covers exactly the name. Rule: outside the cursor functions themselves (the bodies that write the field), every
+# read of the field is reached only directly after a call of the consuming cursor function - no other call taking the parser
+# may lie between on any path. Zero reads is the ideal state (locations come from tokens).
+
+def run_cursor_loc_fresh(prog, tier, repo):
+    from ..core import places_read
+    res = RuleResult('CURSOR-LOC-FRESH', 'C14: the parser\'s last-token location is read for a node location only directly after a '
+                     'token was consumed - a peek in between moves it over the comments that follow')
+    parser_adt = [a for a in prog.adts.values() if a.crate == 'samlang_parser' and a.kind == 'struct' and a.variants
+                  and any(f.name == 'last_location' for f in a.variants[0].fields)]
+    if len(parser_adt) != 1:
+        res.cannot_decide(f'the parser struct holding `last_location` (found {len(parser_adt)})')
+        return [res]
+    pid = parser_adt[0].id
+
+    def touches(pl):
+        return any(e[0] == 'f' and e[1] == pid and e[4] == 'last_location' for e in pl.proj)
+    writers, readers = set(), []
+    for b in prog.bodies.values():
+        if b.crate != 'samlang_parser' or '::tests' in b.name:
+            continue
+        for bl in b.blocks:
+            for st in bl.stmts:
+                if st[0] == 'a' and touches(st[1]):
+                    writers.add(b.id)
+    consuming = set()      # writers that take the peeked token (write `peeked` = None / call Option::take on it)
+    for wid in writers:
+        wb = prog.bodies[wid]
+        for bl in wb.blocks:
+            t = bl.term
+            if t[0] == 'call' and (callee(t)[1] or '').endswith('::take') and t[3] and t[3][0][0] in ('c', 'm'):
+                r, p = operand_root(wb, t[3][0])
+                if any(e[0] == 'f' and e[4] == 'peeked' for e in p):
+                    consuming.add(wid)
+    if not writers or not consuming:
+        res.cannot_decide('the cursor functions writing `last_location` / taking the peeked token')
+        return [res]
+    n = 0
+    for b in sorted(prog.bodies.values(), key=lambda x: x.name):
+        if b.crate != 'samlang_parser' or '::tests' in b.name or b.id in writers:
+            continue
+        reads = [(bi, line) for pl, bi, line in places_read(b) if touches(pl)]
+        if not reads:
+            continue
+        # parser-taking calls per block
+        def parser_call(bl):
+            t = bl.term
+            if t[0] != 'call' or bl.cleanup:
+                return None
+            for o in t[3]:
+                if o[0] in ('c', 'm') and strip_refs(b.locals[o[1].local]).k == 'adt' and strip_refs(b.locals[o[1].local]).id == pid:
+                    return callee(t)[0] or '?'
+            return None
+        preds = {}
+        for bi in range(len(b.blocks)):
+            for s in succs(b, bi):
+                preds.setdefault(s, []).append(bi)
+        for k, (rb, line) in enumerate(sorted(set(reads)), 1):
+            n += 1
+            # walk backwards from the read; the first parser-taking call met on each path must be the consuming cursor function
+            bad, seen, stack = None, set(), list(preds.get(rb, []))
+            reached_entry = rb == 0
+            while stack and bad is None:
+                x = stack.pop()
+                if x in seen:
+                    continue
+                seen.add(x)
+                c = parser_call(b.blocks[x])
+                if c is not None:
+                    if c not in consuming:
+                        bad = (x, c)
+                    continue
+                if x == 0:
+                    reached_entry = True
+                stack.extend(preds.get(x, []))
+            key = f'cursor-loc:{b.name}#{k}'
+            if bad is not None:
+                nm = prog.bodies[bad[1]].name if bad[1] in prog.bodies else bad[1]
+                res.violation(key, b.loc(line), f'{b.name} reads the parser\'s `last_location` after a call of {nm} (line '
+                              f'{b.blocks[bad[0]].term[7]}) that may have looked ahead: the cursor has already skipped the comments that '
+                              f'follow and `last_location` points at the last of them, so the location built here extends over text '
+                              f'that is not part of the construct')
+            elif reached_entry:
+                res.violation(key, b.loc(line), f'{b.name} reads `last_location` on a path with no consumed token before it in this '
+                              f'function: what the cursor last looked at is unknown here')
+            else:
+                res.ok(key, b.loc(line), 'read directly after a token was consumed')
+    if n == 0:
+        res.ok('cursor-loc:no-read-outside-the-cursor', parser_adt[0].file + f':{parser_adt[0].line}',
+               'no node location is built from `last_location`; locations come from tokens')
+    res.analysed['cursor_functions'] = sorted(prog.bodies[i].name for i in writers)
+    res.analysed['consuming_cursor_functions'] = sorted(prog.bodies[i].name for i in consuming)
+    res.analysed['reads_outside_cursor'] = n
     return [res]
